@@ -114,11 +114,11 @@ CHECKS = {
         note='Trusted: TLC; enthalpy read through the library (C07/C14 cover its meaning); tolerance is ten times the documented solver resolution. Known finding: entropy assignment on liquid phases (noise of the thermo package liquid entropy).'),
     'C06': dict(
         engine='ReactEnergy', category='model_checking',
-        technique='TLA+ spec defining the heat of reaction, Hnet and the adiabatic temperature rule over exact rationals (ReactEnergy.tla) model-checked by TLC (enthalpy ledger, dH x reactant = change of Hnet, adiabatic balance, mol/wt consistency); histories on real Reaction / ParallelReaction / SeriesReaction objects and streams validated step by step by TLC',
-        text='TLC explores every single / parallel / series set of two library reactions (mol and wt basis, phase-less and phase-tagged) on four feeds followed by isothermal / adiabatic reactions and re-heating and checks the ledger and '
+        technique='TLA+ spec defining the heat of reaction, Hnet and the adiabatic temperature rule over exact rationals (ReactEnergy.tla) model-checked by TLC (enthalpy ledger, dH x reactant = change of Hnet, adiabatic balance, mol/wt consistency); histories on real Reaction / ParallelReaction / SeriesReaction / ReactionSystem objects and streams validated step by step by TLC',
+        text='TLC explores every single / parallel / series / system set of two library reactions (mol and wt basis, phase-less and phase-tagged) on four feeds followed by isothermal / adiabatic reactions and re-heating and checks the ledger and '
              'the definition of dH on the model. Random histories on real objects built from synthetic chemicals with exact enthalpies (load a set, feed a single- or multi-phase stream, query dH of the reaction or of a set member, react, '
              'adiabatic_reaction with heat input) log material, temperature and Hnet before / after; TLC judges material, dH value, Hnet value, isothermal heat of reaction (where the definition applies), adiabatic balance and temperature.',
-        note='Trusted: TLC; synthetic chemicals only (constant Cn, constant latent heats); ReactionSystem not driven; infeasible conversions out of contract (C05).'),
+        note='Trusted: TLC; synthetic chemicals only (constant Cn, constant latent heats); infeasible conversions out of contract (C05).'),
     'C03': dict(
         engine='PhaseEq', category='exploration',
         technique='TLA+ contract spec of equilibrium calls as nondeterministic material-moving actions (PhaseEq.tla) model-checked by TLC; phase x chemical tables logged from real vle / lle / sle / vlle calls are validated step by step by TLC against the contract',
